@@ -22,8 +22,9 @@ def main():
     ap.add_argument("--checks", default=None)
     ap.add_argument("--thorough", action="store_true")
     ap.add_argument("--skip-verify", action="store_true")
+    ap.add_argument("--src", default=SRC)
     a = ap.parse_args()
-    src = os.path.join(SRC, a.pid, a.variant)
+    src = os.path.join(a.src, a.pid, a.variant)
     patch = os.path.join(src, "patch.diff")
     demo = os.path.join(src, "demo.py")
     meta = json.load(open(os.path.join(src, "meta.json")))
